@@ -102,6 +102,42 @@ def classify (b : UInt8) : Lead :=
 def needs (w : Nat) (r : Bytes) (k : Bytes → Hdr) : Option (Hdr × Bytes) :=
   if r.length < w then none else some (k (r.take w), r.drop w)
 
+/-! ### linear-time replacements for compiled code, proved equal
+
+`r.length < n` measures the *whole* rest of the input, and the parser asks it at every multi-byte
+header, string, binary and extension: quadratic on inputs with thousands of tokens.  `lenLt r n` walks
+at most `n` cells.  `needsFast`, `parseFFast`, `parseNFast` repeat the definitions with that test and
+are proved equal, so the compiler may substitute them (`@[csimp]`: the kernel checks the equation,
+nothing is trusted beyond it; the logic, and every theorem, keeps the original definitions). -/
+
+/-- `r.length < n`, looking at no more than `n` cells of `r` -/
+def lenLt : Bytes → Nat → Bool
+  | _, 0 => false
+  | [], _+1 => true
+  | _ :: r, n+1 => lenLt r n
+
+theorem lenLt_iff : ∀ (r : Bytes) (n : Nat), lenLt r n = true ↔ r.length < n
+  | _, 0 => by simp [lenLt]
+  | [], n+1 => by simp [lenLt]
+  | _ :: r, n+1 => by simp [lenLt, lenLt_iff r n]
+
+theorem lenLt_eq (r : Bytes) (n : Nat) : lenLt r n = decide (r.length < n) := by
+  cases h : lenLt r n with
+  | true => exact (decide_eq_true ((lenLt_iff r n).1 h)).symm
+  | false =>
+    have : ¬ r.length < n := fun hh => by rw [(lenLt_iff r n).2 hh] at h; cases h
+    exact (decide_eq_false this).symm
+
+def needsFast (w : Nat) (r : Bytes) (k : Bytes → Hdr) : Option (Hdr × Bytes) :=
+  if lenLt r w then none else some (k (r.take w), r.drop w)
+
+@[csimp] theorem needs_csimp : @needs = @needsFast := by
+  funext w r k
+  unfold needs needsFast
+  rw [lenLt_eq]
+  by_cases h : r.length < w <;> simp [h]
+
+
 def headerOf (l : Lead) (r : Bytes) : Option (Hdr × Bytes) :=
   match l with
   | .imm h => some (h, r)
@@ -153,6 +189,89 @@ def parseN : Nat → Nat → Bytes → Option (Objs × Bytes)
       | none => none
       | some (xs, r') => some (.cons x xs, r')
 end
+
+mutual
+def parseFFast : Nat → Bytes → Option (Obj × Bytes)
+  | 0, _ => none
+  | f+1, b =>
+    match header b with
+    | none => none
+    | some (.scalar o, r) => some (o.toObj, r)
+    | some (.blob k n, r) =>
+      if lenLt r n then none
+      else some (blobObj k (r.take n), r.drop n)
+    | some (.ext n, r) =>
+      match r with
+      | [] => none
+      | t :: d => if lenLt d n then none else some (.ext t (d.take n), d.drop n)
+    | some (.arr n, r) => match parseNFast f n r with
+        | some (xs, r') => some (.arr xs, r')
+        | none => none
+    | some (.map n, r) => match parseNFast f (2*n) r with
+        | some (xs, r') => some (.map xs, r')
+        | none => none
+def parseNFast : Nat → Nat → Bytes → Option (Objs × Bytes)
+  | 0, _, _ => none
+  | _+1, 0, b => some (.nil, b)
+  | f+1, n+1, b => match parseFFast f b with
+    | none => none
+    | some (x, r) => match parseNFast f n r with
+      | none => none
+      | some (xs, r') => some (.cons x xs, r')
+end
+
+mutual
+theorem parseF_eq_fast : ∀ (f : Nat) (b : Bytes), parseF f b = parseFFast f b
+  | 0, _ => by simp [parseF, parseFFast]
+  | f+1, b => by
+    unfold parseF parseFFast
+    split
+    · next h => first | rfl | rw [h]
+    · next o r h => first | rfl | rw [h]
+    · next k n r h =>
+      try rw [h]
+      try simp only
+      rw [lenLt_eq]
+      by_cases hl : r.length < n <;> simp [hl]
+    · next n r h =>
+      try rw [h]
+      try simp only
+      cases r with
+      | nil => rfl
+      | cons t d =>
+        simp only
+        rw [lenLt_eq]
+        by_cases hl : d.length < n <;> simp [hl]
+    · next n r h =>
+      try rw [h]
+      try simp only
+      rw [parseN_eq_fast f n r]
+      try rfl
+    · next n r h =>
+      try rw [h]
+      try simp only
+      rw [parseN_eq_fast f (2*n) r]
+      try rfl
+theorem parseN_eq_fast : ∀ (f n : Nat) (b : Bytes), parseN f n b = parseNFast f n b
+  | 0, _, _ => by simp [parseN, parseNFast]
+  | f+1, 0, b => by simp [parseN, parseNFast]
+  | f+1, n+1, b => by
+    unfold parseN parseNFast
+    rw [parseF_eq_fast f b]
+    split
+    · next h => first | rfl | rw [h]
+    · next x r h =>
+      try rw [h]
+      try simp only
+      rw [parseN_eq_fast f n r]
+      try rfl
+end
+
+@[csimp] theorem parseF_csimp : @parseF = @parseFFast := by
+  funext f b; exact parseF_eq_fast f b
+@[csimp] theorem parseN_csimp : @parseN = @parseNFast := by
+  funext f n b; exact parseN_eq_fast f n b
+
 
 /-- fuel: each nesting level costs two units (`parseF → parseN → parseF`) and each sibling one,
 while consuming at least one byte, so `2 * length + 2` always suffices -/
